@@ -1,6 +1,8 @@
 import random
 import string
 
+from scapy.packet import NoPayload, Padding
+
 from pyp0f.exceptions import PacketError
 from pyp0f.net.scapy import ScapyIPv4, ScapyIPv6, ScapyPacket, ScapyTCP
 
@@ -9,6 +11,15 @@ _DEFAULT_CHARS = string.ascii_uppercase + string.ascii_lowercase + string.digits
 
 def random_string(*, size: int, chars=_DEFAULT_CHARS) -> str:
     return "".join(random.choice(chars) for _ in range(size))
+
+
+def tcp_payload(tcp: ScapyTCP) -> ScapyPacket:
+    """
+    Payload of a TCP layer. Link-layer padding of a short frame (dissected by
+    Scapy as a Padding layer) lies after the IP datagram and is not TCP payload.
+    """
+    payload = tcp.payload
+    return NoPayload() if isinstance(payload, Padding) else payload
 
 
 def validate_for_impersonation(packet: ScapyPacket) -> None:
